@@ -127,6 +127,69 @@ theorem fillEntry_matching (d : Design) (id : Nat) (lf : Layout.LFactor) (look :
   rw [hfind]
   rfl
 
+theorem mapM_except_ok {α β ε : Type} (f : α → Except ε β) :
+    ∀ (l : List α) (r : List β), l.mapM f = .ok r →
+      r.length = l.length ∧ ∀ i, i < l.length → ∃ a b, l[i]? = some a ∧ r[i]? = some b ∧ f a = .ok b := by
+  intro l
+  induction l with
+  | nil =>
+    intro r h
+    simp [List.mapM_nil, pure, Except.pure] at h
+    subst h
+    exact ⟨rfl, fun i hi => absurd hi (Nat.not_lt_zero _)⟩
+  | cons a l ih =>
+    intro r h
+    rw [List.mapM_cons] at h
+    cases hfa : f a with
+    | error e => simp [hfa, bind, Except.bind] at h
+    | ok b =>
+      cases hl : l.mapM f with
+      | error e => simp [hfa, hl, bind, Except.bind] at h
+      | ok bs =>
+        simp [hfa, hl, bind, Except.bind, pure, Except.pure] at h
+        subst h
+        obtain ⟨hlen, hall⟩ := ih bs hl
+        refine ⟨by simp [hlen], ?_⟩
+        intro i hi
+        cases i with
+        | zero => exact ⟨a, b, rfl, rfl, hfa⟩
+        | succ j =>
+          obtain ⟨a', b', h1, h2, h3⟩ := hall j (by simpa using hi)
+          exact ⟨a', b', by simpa using h1, by simpa using h2, h3⟩
+
+/-- **The whole column.**  When `_fill_in_derived` returns, it returns one entry per trial of `[start, stop)`, and the
+    entry of trial `start + u` is `fillEntry`'s (so, by `fillEntry_matching` / `fillEntry_not_applicable`: the level
+    the reference semantics selects on the factor's own trials, or `None` where the factor does not apply) -/
+theorem fillColumn_ok (d : Design) (id : Nat) (lf : Layout.LFactor) (look : Nat → Nat → Option Nat) (start stop : Nat)
+    (col : List (Option Nat)) (h : fillColumn d id lf look start stop = .ok col) :
+    col.length = stop - start ∧
+      ∀ u, u < stop - start → ∃ e, col[u]? = some e ∧ fillEntry d id lf look (start + u) = .ok e := by
+  unfold fillColumn at h
+  obtain ⟨hlen, hall⟩ := mapM_except_ok _ _ _ h
+  refine ⟨by simpa using hlen, ?_⟩
+  intro u hu
+  obtain ⟨a, b, h1, h2, h3⟩ := hall u (by simpa using hu)
+  have : a = u := by
+    rw [List.getElem?_range (by simpa using hu)] at h1
+    exact (Option.some.inj h1).symm
+  subst this
+  exact ⟨b, h2, h3⟩
+
+/-- an error of the column is the RuntimeError of a trial with no accepting level (the only error `fillEntry` has) -/
+theorem fillEntry_error (d : Design) (id : Nat) (lf : Layout.LFactor) (look : Nat → Nat → Option Nat) (i : Nat) (e : PyErr)
+    (h : fillEntry d id lf look i = .error e) : e = .runtimeError := by
+  cases hw : (d.factor id).window with
+  | none => simp [fillEntry, hw] at h
+  | some w =>
+    by_cases ha : Layout.applies lf (i / lf.sustain + 1) = true
+    · simp only [fillEntry, hw, ha, if_true] at h
+      unfold selectLevel at h
+      split at h
+      · simp [Except.map] at h
+      · simp [Except.map] at h
+        exact h.symm
+    · simp [fillEntry, hw, ha] at h
+
 /-! ### a concrete instance: a "repeat" transition factor of the outer block of a Nest (held for 2 trials) -/
 
 namespace Witness
